@@ -71,23 +71,6 @@ def run (enc plug tok n0 draws rsa : String) (cap : Nat) (evs : List String) : S
       s!"joins={showStrs s.joins} state={st} err={showKErr s.err}"
   | _, _, _, _, _, _, _ => "bad-op"
 
-/-- The stack built by installing a cipher for each secret in turn (first secret = first
-installed = innermost). -/
-def mkStack : List Bytes → Except Err (List KChan)
-  | [] => .ok []
-  | d :: ds =>
-    match KChan.create d, mkStack ds with
-    | .ok c, .ok st => .ok (st ++ [c])
-    | .error e, _ => .error e
-    | _, .error e => .error e
-
-/-- Ops through a stack: `s` = `connection.socket.send`, `r`/`f` = `recv` / file `read`. -/
-def stackRun : List KChan → List Op → List Bytes
-  | _, [] => []
-  | st, .send d :: ops => let r := stackSend st d; r.2 :: stackRun r.1 ops
-  | st, .recv ch :: ops => let r := stackRecv st ch; r.2 :: stackRun r.1 ops
-  | st, .read ch :: ops => let r := stackRecv st ch; r.2 :: stackRun r.1 ops
-
 end KeysD
 
 /-- `keys.run encid=<n> plugid=<n> token=<0|1> n0=<n> draws=<hex16,…|-> rsa=<msghex:cthex,…|->
@@ -126,8 +109,8 @@ def c18keys (toks : List String) : Option String :=
   | "kstack" :: s :: ops =>
     match KeysD.hexList? s, ops.mapM parseChanOp with
     | some secrets, some ops =>
-      match KeysD.mkStack secrets with
-      | .ok st => some (okList (KeysD.stackRun st ops))
+      match mkStack secrets with
+      | .ok st => some (okList (stackRun st ops))
       | .error e => some ("err:" ++ toString e)
     | _, _ => some "bad-op"
   | "kstack" :: _ => some "bad-op"
